@@ -16,9 +16,14 @@
   * every message that is copied has a channel: `Message.__init__` replaces a `None` channel by 0, `HeapOps.msgCopy` copies
     the value (`messageCopy_eq_statement_false`).
 
-  Scalars outside the identity state: `Bar.default_channel` (source commit f9ef398) is not a field of `HeapOps.BarCell`.  The
-  translator treats it as value level (it checks that only a scalar is ever stored in it); its only use is the channel of the
-  TIME_SIGNATURE message `Bar.__init__` inserts, whose VALUE is the oracle's `tsMsg`, exactly as in `HeapOps.barFinish`.
+  Value-level scalars: the constructor parameter `default_channel` of `Bar` stands behind the tag; its only use is the channel of
+  the TIME_SIGNATURE message `Bar.__init__` inserts, whose VALUE is the oracle's `tsMsg`, exactly as in `HeapOps.barFinish`.
+  `Bar.copy` (second repair of D37) computes that argument from the bar's own leading time-signature message, which it finds by
+  READING `self.sequence.rel`: at identity level a call of the translated `rel` property on the SOURCE's wrapper — a plain read
+  when the relative view is not stale (the case `barCopy_eq` covers: `BarCopyOk`), the regeneration of the view otherwise
+  (`HeapOps.barCopy` models it by `readRel`; `C16c.derive_fresh_barCopy` has the allowance "the source may be written, but only
+  in cells reachable from it").  A source that stores the channel in an attribute of the bar (commit f9ef398) is refused by the
+  translator.
 
   Tied here: `Message.copy`, `AbstractSequence.copy`, `Sequence.__init__` / `copy` / `split` (the wrapper), `Bar.__init__` / `copy`,
   `Bar.to_sequence`, `Track.__init__` / `copy`, `Composition.copy`.  Still tied by the sampled correspondence only:
@@ -101,27 +106,41 @@ theorem barInit_eq (g : GOrc) (tag s : Nat) (num den key : Int) (h : Heap) (hl :
   simp only [run_bind, newBarObj, run_alloc, bindRes_ok, newBar_snd, barNew_run g tag s num den key h hl, run_pure]
   rfl
 
-/-- the hypothesis of `Bar.copy`: the bar's sequence can be copied (`SeqCopyOk`).  (A bar whose sequence has BOTH views
-    stale is copied to an EMPTY bar, in the code and in the model alike: `Sequence.copy` then builds `Sequence(None, None)`.) -/
-def BarCopyOk (h : Heap) (b : Nat) : Prop := SeqCopyOk h (h.bar b).seq
+/-- the hypothesis of `Bar.copy`: the bar's sequence can be copied (`SeqCopyOk`) and its RELATIVE VIEW IS NOT STALE — the state
+    `Bar.__init__`, `set_channel` and `transpose` without octave wrap leave a bar in.  `Bar.copy` reads `self.sequence.rel`
+    (bar.py:59) before it copies: with a stale relative view that read rewrites the SOURCE's wrapper (modelled by
+    `HeapOps.barCopy`, covered by `C16c.derive_fresh_barCopy`, not by this equality); with both views stale it raises. -/
+def BarCopyOk (h : Heap) (b : Nat) : Prop := SeqCopyOk h (h.bar b).seq ∧ (h.seq (h.bar b).seq).relStale = false
 
-/-- the translated `Bar.copy` IS `HeapOps.barCopy` (the step of `HOp.barCopy`) under `orcOf g`: the sequence is copied
-    (`Sequence.copy`), a NEW bar is constructed on the copy, with the source's signature and key. (A2) -/
+/-- the translated `Bar.copy` IS `HeapOps.barCopy` (the step of `HOp.barCopy`) under `orcOf g`: the relative view of the source
+    is read (`self.sequence.rel`; not stale: nothing is written), the sequence is copied (`Sequence.copy`), a NEW bar is
+    constructed on the copy, with the source's signature and key. (A2) -/
 theorem barCopy_eq (g : GOrc) (tag b : Nat) (h : Heap) (hok : BarCopyOk h b) :
     Gen.HeapFns.barCopy g tag b h
       = (.ok (HeapOps.barCopy (orcOf g) tag h b).2, (HeapOps.barCopy (orcOf g) tag h b).1) :=
-  barCopy_run g tag b h hok
+  barCopy_run g tag b h hok.1 hok.2
 
 /-- `exState` of C16c holds a sequence, its copy, a bar (cell 0) and a copy of that bar -/
 example : BarCopyOk C16c.exState.1 0 := by
-  exact ⟨fun hf => absurd hf (by decide), fun _ => ⟨8, by decide, by decide, by unfold IdsOk; decide⟩⟩
+  exact ⟨⟨fun hf => absurd hf (by decide), fun _ => ⟨8, by decide, by decide, by unfold IdsOk; decide⟩⟩, by decide⟩
 
-/-- `derive_fresh_barCopy` for the TRANSLATED `Bar.copy`: the call returns normally; the bar, its sequence, the views and
-    the messages reachable from the returned bar were all allocated by the call; no existing cell is written. (A2) -/
+/-- freshness for the TRANSLATED `Bar.copy` of a bar whose relative view is not stale: the call returns normally; the bar, its
+    sequence, the views and the messages reachable from the returned bar were all allocated by the call; NO existing cell is
+    written (the read of the relative view is a plain read). (A2) -/
 theorem barCopy_fresh (g : GOrc) (tag b : Nat) (h : Heap) (hok : BarCopyOk h b) :
     ∃ r h', Gen.HeapFns.barCopy g tag b h = (.ok r, h') ∧ FreshCells h h' (reach h' (.bar, r))
       ∧ ∀ c, h.alloc c → h'.get c = h.get c :=
-  ⟨_, _, barCopy_eq g tag b h hok, derive_fresh_barCopy (orcOf g) tag h b⟩
+  ⟨_, _, barCopy_eq g tag b h hok, fresh_of_spec (barCopy_spec_fresh (orcOf g) tag (HeapL.good_fresh h) hok.2)⟩
+
+/-- … and for a source with no dangling identity, whatever the state of its relative view, the MODEL step has the allowance of
+    `Sequence.split`: the copy is made of new cells not reachable from the source, and the source is written only in cells
+    reachable from it (its wrapper, when the stale relative view is regenerated) — `C16c.derive_fresh_barCopy`, restated here
+    beside the equality it complements -/
+theorem barCopy_model_fresh (o : Orc) (tag b : Nat) (h : Heap) (hall : AllocAll h [(.bar, b)]) :
+    FreshCells h (HeapOps.barCopy o tag h b).1 (reach (HeapOps.barCopy o tag h b).1 (.bar, (HeapOps.barCopy o tag h b).2))
+      ∧ Disjoint (reach (HeapOps.barCopy o tag h b).1 (.bar, (HeapOps.barCopy o tag h b).2)) (reach (HeapOps.barCopy o tag h b).1 (.bar, b))
+      ∧ ∀ c, h.alloc c → c ∉ reach h (.bar, b) → (HeapOps.barCopy o tag h b).1.get c = h.get c :=
+  derive_fresh_barCopy o tag h b hall
 
 /-! ## route (2): `Sequence.split` (the wrapper; `RelativeSequence.split` itself is a LINK, see the file header) -/
 
@@ -185,8 +204,8 @@ theorem trackInit_eq (g : GOrc) (tag : Nat) (bars : List Nat) (name : Int) (h : 
 
 /-- the translated `Track.copy` IS `HeapOps.trkCopy` (the step of `HOp.trkCopy`) under `orcOf g`: every bar is copied by
     `Bar.copy` (in order; a bar listed twice is copied twice), a NEW track is constructed on the list of the copies, with the
-    source's name.  Hypothesis `TrkOk`: the track exists, each of its bars exists, the bar's sequence exists and satisfies
-    `SeqCopyOk`. (A2) -/
+    source's name.  Hypothesis `TrkOk`: the track exists, each of its bars exists, the bar's sequence exists, satisfies
+    `SeqCopyOk` and has a relative view that is not stale (`BarOk`). (A2) -/
 theorem trackCopy_eq (g : GOrc) (tag t : Nat) (h : Heap) (hok : TrkOk h t) :
     trackCopy g tag t h = (.ok (trkCopy (orcOf g) tag h t).2, (trkCopy (orcOf g) tag h t).1) :=
   trackCopy_run g tag t h hok
@@ -197,17 +216,18 @@ theorem compositionCopy_eq (g : GOrc) (tag c : Nat) (h : Heap) (hok : ∀ t ∈ 
     compositionCopy g tag c h = (.ok (cmpCopy (orcOf g) tag h c).2, (cmpCopy (orcOf g) tag h c).1) :=
   compositionCopy_run g tag c h hok
 
-/-- `derive_fresh_trkCopy` for the TRANSLATED `Track.copy`. (A2) -/
+/-- freshness for the TRANSLATED `Track.copy` of a track whose bars' relative views are not stale (`TrkOk`): every cell of the copy
+    is new, no existing cell is written. (A2) -/
 theorem trackCopy_fresh (g : GOrc) (tag t : Nat) (h : Heap) (hok : TrkOk h t) :
     ∃ r h', trackCopy g tag t h = (.ok r, h') ∧ FreshCells h h' (reach h' (.trk, r))
       ∧ ∀ c, h.alloc c → h'.get c = h.get c :=
-  ⟨_, _, trackCopy_eq g tag t h hok, derive_fresh_trkCopy (orcOf g) tag h t⟩
+  ⟨_, _, trackCopy_eq g tag t h hok, fresh_of_spec (trkCopy_spec_ok (orcOf g) tag (HeapL.good_fresh h) hok)⟩
 
-/-- `derive_fresh_cmpCopy` for the TRANSLATED `Composition.copy`. (A2) -/
+/-- freshness for the TRANSLATED `Composition.copy` (every bar's relative view not stale). (A2) -/
 theorem compositionCopy_fresh (g : GOrc) (tag c : Nat) (h : Heap) (hok : ∀ t ∈ h.cmp c, TrkOk h t) :
     ∃ r h', compositionCopy g tag c h = (.ok r, h') ∧ FreshCells h h' (reach h' (.cmp, r))
       ∧ ∀ c', h.alloc c' → h'.get c' = h.get c' :=
-  ⟨_, _, compositionCopy_eq g tag c h hok, derive_fresh_cmpCopy (orcOf g) tag h c⟩
+  ⟨_, _, compositionCopy_eq g tag c h hok, fresh_of_spec (cmpCopy_spec_ok (orcOf g) tag (HeapL.good_fresh h) hok)⟩
 
 /-- `exState` with a track on its two bars (the first bar listed twice) and a composition of that track -/
 def exTrackState : Heap :=
